@@ -163,7 +163,7 @@ pub fn setup(args: &[String], tag: &str) -> Result<Env> {
 
 // ------------------------------------------------------------------ C03 pub/sub fidelity
 #[allow(clippy::too_many_arguments)]
-async fn pubsub_case<C, Item>(client: &Client, log: &EvLog, run: u64, case: &Value, codec: C, comp: &str, topic: &str, rng: &mut StdRng, big: bool) -> Result<()>
+async fn pubsub_case<C, Item>(client: &Client, raw: &quinn::Connection, log: &EvLog, run: u64, case: &Value, codec: C, comp: &str, topic: &str, rng: &mut StdRng, big: bool) -> Result<()>
 where
     C: MessageEncoder<Item> + MessageDecoder<Item> + Clone + Send + Sync + Unpin + 'static,
     Item: Payload + std::fmt::Debug,
@@ -253,6 +253,59 @@ where
     }
     let mut publisher = Some(pb.open().await?);
     let mut sent: Vec<Item> = vec![];
+    // Every fifth case: a foreign publisher sends one payload that is not valid for the subscriber's
+    // codec.  The subscriber must report exactly one error for it, and nothing that follows may be
+    // disturbed (the subscriber keeps its decoder and decompressor objects for the life of its stream).
+    let tname = std::any::type_name::<Item>();
+    if run % 5 == 2 && !burst && !tname.contains("Vec<u8>") {
+        let bad: Vec<u8> = if tname.contains("String") {
+            b"\xff\xfe\xfd not utf-8 \xc3".to_vec()
+        } else {
+            // bincode: an id, then a string whose bytes are not UTF-8, then bytes that would decode as a
+            // complete value if a decoder picked them up later
+            let mut v = 5u64.to_le_bytes().to_vec();
+            v.extend(2u64.to_le_bytes());
+            v.extend([0xff, 0xfe]);
+            v.extend(bincode::serialize(&Sample { id: 777_777, name: "evil".into(), blob: vec![1, 2, 3] }).unwrap());
+            v
+        };
+        let payload = match compression(comp) {
+            Some((c, _)) => c.compress(Bytes::from(bad)).map_err(|e| anyhow!("compress: {e}"))?,
+            None => Bytes::from(bad),
+        };
+        let mut st = raw_stream(raw).await?;
+        st.send(selium_protocol::Frame::RegisterPublisher(selium_protocol::PublisherPayload {
+            topic: selium_protocol::TopicName::try_from(topic)?,
+            retention_policy: 0,
+            operations: vec![],
+        }))
+        .await?;
+        let _ = st.next().await;
+        st.send(selium_protocol::Frame::Message(selium_protocol::MessagePayload { headers: None, message: payload })).await?;
+        log.emit("poison", json!({"codec": tname}));
+        let mut reported = false;
+        let deadline = tokio::time::Instant::now() + Duration::from_secs(5);
+        while let Ok(Some(it)) = tokio::time::timeout_at(deadline, sub.recv()).await {
+            match it {
+                Some(Err(e)) => {
+                    log.emit("sub_err", json!({"err": e.to_string().chars().take(80).collect::<String>()}));
+                    reported = true;
+                    break;
+                }
+                Some(Ok(v)) => {
+                    log.emit("sub_item", json!({"i": v.index(), "eq": false}));
+                }
+                None => {
+                    log.emit("sub_end", json!({}));
+                    break;
+                }
+            }
+        }
+        if !reported {
+            log.emit("poison_unreported", json!({}));
+        }
+        let _ = st.finish().await;
+    }
     if burst {
         let _ = gate.send(true);
     }
@@ -347,10 +400,12 @@ async fn cmd_pubsub(args: Vec<String>) -> Result<()> {
         let addr = env.server.addr;
         handles.push(tokio::spawn(async move {
             let mut client = connect_client(addr, &certs, BackoffStrategy::constant().with_max_attempts(0)).await?;
+            let mut raw = raw_connect_trusted(addr, &certs).await?;
             let mut k = w;
             while k < cases.len() {
                 let run = k as u64 + 1;
                 if (k / par) % 25 == 24 {
+                    raw = raw_connect_trusted(addr, &certs).await?;
                     // The server notices that a subscriber has gone only when a write to it fails; on
                     // these one-case topics nothing is written any more, the stream stays half-open and
                     // counts against the connection's limit of 100 concurrent streams (open() would
@@ -370,9 +425,9 @@ async fn cmd_pubsub(args: Vec<String>) -> Result<()> {
                 // a case that does not finish is reported, never waited for
                 let limit = Duration::from_secs(120);
                 let r = match run % 3 {
-                    0 => tokio::time::timeout(limit, pubsub_case::<StringCodec, String>(&client, &clog, run, &case, StringCodec, comp, &topic, &mut rng, big)).await,
-                    1 => tokio::time::timeout(limit, pubsub_case::<BytesCodec, Vec<u8>>(&client, &clog, run, &case, BytesCodec, comp, &topic, &mut rng, big)).await,
-                    _ => tokio::time::timeout(limit, pubsub_case::<BincodeCodec<Sample>, Sample>(&client, &clog, run, &case, BincodeCodec::default(), comp, &topic, &mut rng, big)).await,
+                    0 => tokio::time::timeout(limit, pubsub_case::<StringCodec, String>(&client, &raw, &clog, run, &case, StringCodec, comp, &topic, &mut rng, big)).await,
+                    1 => tokio::time::timeout(limit, pubsub_case::<BytesCodec, Vec<u8>>(&client, &raw, &clog, run, &case, BytesCodec, comp, &topic, &mut rng, big)).await,
+                    _ => tokio::time::timeout(limit, pubsub_case::<BincodeCodec<Sample>, Sample>(&client, &raw, &clog, run, &case, BincodeCodec::default(), comp, &topic, &mut rng, big)).await,
                 };
                 match r {
                     Ok(Ok(())) => {}
